@@ -7,6 +7,7 @@ import (
 	"encoding/hex"
 	"encoding/json"
 	"fmt"
+	"net/url"
 	"os"
 	"os/exec"
 	"path/filepath"
@@ -170,6 +171,20 @@ func c20Scripts() []c20Script {
 			c.do(world.Req{Method: "GET", Path: "/auth/otp/add", ForceForm: true})
 			c.do(flows.Logout(c.s, c.browser))
 			c.do(flows.OTPLogin(c.s, c.browser, c.pid, otp, false))
+		}},
+		{"oauth2-start-callback", func(c *c20Client) {
+			// the client passes a parameter of its own through the round trip; the provider identifies it by its index
+			c.do(flows.OAuthStart(c.s, c.browser, "google", "login_hint="+url.QueryEscape(c.pid)+"&redir=%2Fhome%2F"+strconv.Itoa(c.idx)))
+			st := ""
+			func() {
+				if c.mu != nil {
+					c.mu.Lock()
+					defer c.mu.Unlock()
+				}
+				st = c.w.Browsers[c.browser].Session["oauth2_state"]
+			}()
+			c.do(flows.OAuthCallback(c.s, c.browser, "google", st, "c:client"+strconv.Itoa(c.idx), ""))
+			c.do(flows.Open(c.browser))
 		}},
 	}
 }
@@ -667,12 +682,13 @@ func c20RaceUnit(reps int) engine.Unit {
 		if err != nil && n == 0 {
 			res.Violations = append(res.Violations, engine.Violation{Rule: "harness/racepass-failed", Detail: err.Error() + ": " + trunc(errb.String(), 800)})
 		}
-		pairs := 15*2 + 2
+		np := len(c20Scripts()) * (len(c20Scripts()) + 1) / 2
+		pairs := np*2 + 2
 		res.Evaluations = pairs * reps
 		res.Cover["race-pass-runs"] = pairs * reps
 		res.Cover["race-reports"] = n
 		res.Distinct["race-pass:log-mailer"], res.Distinct["race-pass:smtp-mailer"] = true, true
-		res.Samples = []interface{}{fmt.Sprintf("%d unordered script pairs (incl. self pairs) + all five together, x2 mailers, x%d repetitions, free-running under -race: %d reports", 15, reps, n)}
+		res.Samples = []interface{}{fmt.Sprintf("%d unordered script pairs (incl. self pairs) + five together, x2 mailers, x%d repetitions, free-running under -race: %d reports", np, reps, n)}
 		res.WallS = time.Since(t0).Seconds()
 		return res
 	}}
@@ -681,7 +697,7 @@ func c20RaceUnit(reps int) engine.Unit {
 func init() {
 	engine.Register(&engine.Property{
 		ID: "C20", Level: "model_checking",
-		Rule: "E5: every unordered pair (thorough: also triples) of five client scripts (register>confirm>login, login(rm)>restart>open, recover start>end, login>e-mail verify, login>otp add>logout>otp login), each client on its own account and browser, mail goroutines as threads of their own, with the shipped defaults.LogMailer (every Write of its stream a scheduling point) and with defaults.SMTPMailer; ALL schedules with at most 1 (quick) / 2 (thorough) preemptions at the harness seams are executed on the real instance, and in a second pass EVERY schedule without a preemption bound, pruned on a global state key (shared world + every thread's position and the hash of all environment answers it has received); oracle: per-client transcript (responses, session, own rows, and the mails addressed to the client byte for byte) equals the solo run, no torn mail, no deadlock, no two threads inside SMTPMailer's math/rand generator; plus the same bodies free-running under the Go race detector; states = distinct joint outcomes, transitions = scheduling decisions, traces validated = executed schedules",
+		Rule: "E5: every unordered pair (thorough: also triples) of six client scripts (register>confirm>login, login(rm)>restart>open, recover start>end, login>e-mail verify, login>otp add>logout>otp login, OAuth2 start>callback with a pass-through parameter), each client on its own account and browser, mail goroutines as threads of their own, with the shipped defaults.LogMailer (every Write of its stream a scheduling point) and with defaults.SMTPMailer; ALL schedules with at most 1 (quick) / 2 (thorough) preemptions at the harness seams are executed on the real instance, and in a second pass EVERY schedule without a preemption bound, pruned on a global state key (shared world + every thread's position and the hash of all environment answers it has received); oracle: per-client transcript (responses, session, own rows, and the mails addressed to the client byte for byte) equals the solo run, no torn mail, no deadlock, no two threads inside SMTPMailer's math/rand generator; plus the same bodies free-running under the Go race detector; states = distinct joint outcomes, transitions = scheduling decisions, traces validated = executed schedules",
 		Units: func(tier string) []engine.Unit {
 			var us []engine.Unit
 			n := len(c20Scripts())
